@@ -32,6 +32,21 @@ func main() {
 			fmt.Printf("%-70s %-6s %-14s eff=%s ineff=%s %s %v\n", li.Name, li.Kind, li.Source, li.Eff.Format("2006-01-02"), li.Ineff.Format("2006-01-02"), ex, li.Problems)
 		}
 		fmt.Println(n, "registrations")
+	case "selfreplay":
+		// selfreplay <obligation-name>: runs the model-free replay registered for that obligation name
+		// on the current tree (must PASS on the unchanged tree: a replay that fails there is a false alarm)
+		w, err := LoadWorld("/repo/v3", "/verif")
+		if err != nil {
+			fmt.Fprintln(os.Stderr, err)
+			os.Exit(2)
+		}
+		rp := &Replayer{W: w, Verif: os.TempDir()}
+		o := &Obligation{Name: os.Args[2], Status: "unknown"}
+		path, concrete := rp.Replay(o)
+		fmt.Println("replay file:", path, "failed-on-real-code:", concrete)
+		if concrete {
+			os.Exit(1)
+		}
 	case "verify", "check", "ledger":
 		os.Exit(cmdCheck(os.Args[1], os.Args[2:]))
 	default:
